@@ -3,7 +3,7 @@
    Coq datatypes.  No Extract Constant. *)
 From Coq Require Import ExtrOcamlBasic.
 From Coq Require Import List ZArith QArith.
-From NR Require Import Model.TimeDep Model.Engine Model.Estimates Model.Search Model.Format.
+From NR Require Import Model.TimeDep Model.Engine Model.Estimates Model.Search Model.Format Model.Units.
 
 Extraction "model.ml"
   TimeDep.td_empty TimeDep.set_expression TimeDep.value_at_value
@@ -13,4 +13,6 @@ Extraction "model.ml"
   Engine.new_solution Engine.exec_move Engine.unplan_unit Engine.get_unit Engine.from_scratch Engine.has_max_wait_vehicle Engine.has_capacity Engine.has_distance_limit
   Estimates.move_executable Estimates.exec_checked Engine.unit_planned
   Search.all_orders Search.generate_all Search.all_combinations Search.sequence_generator
-  Format.format_solution.
+  Format.format_solution
+  Units.g_new_solution Units.g_exec_move Units.g_exec_checked Units.g_move_executable Units.g_unplan_unit
+  Units.g_unplan_group Units.g_exec_units Units.g_unplan_vehicle Units.members_of Units.member_group Units.top_planned Units.is_group_id.
